@@ -49,6 +49,12 @@ PERTURB = ['none', 'irregular-falls', 'pause-in-storm', 'gap',
 A0 = 16
 
 
+def decoy():
+    from mc.lib import decoy as decoy_mod
+    decoy_mod.workflow()
+    decoy_mod.functions()
+
+
 def BOUND(tier):
     return {
         'quick': 'words (S D)^2 x 5 perturbations on 6 configurations; '
